@@ -1,6 +1,6 @@
 (* C06 — property theorems (statements only).  Owner: builder-parse. *)
 From Coq Require Import List NArith Bool Arith.
-From DV Require Import C06.Model C06.Lr C06.Proofs C06.StrProofs C06.TablesProofs.
+From DV Require Import C06.Model C06.Lr C06.Proofs C06.Fuel C06.StrProofs C06.TablesProofs.
 Import ListNotations.
 
 (* the committed LALR tables (regenerated from feel-parser/src/lalr.rs on this run) give, on every ordered pair of
@@ -32,6 +32,20 @@ Print Assumptions C06_roundtrip_min_unique.
 Theorem C06_roundtrip_full : forall t, exists f0, forall f, f0 <= f -> parse_fuel f (render_full t) = Some t.
 Proof. exact roundtrip_full. Qed.
 Print Assumptions C06_roundtrip_full.
+
+(* the same with the concrete parser parse_tokens (fuel = number of tokens + 1, proved to be always enough): the headline *)
+Theorem C06_roundtrip_min_tokens : forall t, parse_tokens (render_min t) = Some t.
+Proof. exact roundtrip_min_tokens. Qed.
+Print Assumptions C06_roundtrip_min_tokens.
+
+Theorem C06_roundtrip_full_tokens : forall t, parse_tokens (render_full t) = Some t.
+Proof. exact roundtrip_full_tokens. Qed.
+Print Assumptions C06_roundtrip_full_tokens.
+
+(* whatever the parser accepts with any fuel, parse_tokens accepts with the same tree *)
+Theorem C06_fuel_suffices : forall f ts t, parse_fuel f ts = Some t -> parse_tokens ts = Some t.
+Proof. exact parse_tokens_complete. Qed.
+Print Assumptions C06_fuel_suffices.
 
 (* needed parentheses, in part: proved for every tree made of an operator over an operator (20 x 20 operator shapes, the
    inner one in each operand position): every pair of parentheses of the minimal rendering is needed (without it parse_tokens
